@@ -237,7 +237,7 @@ func genCase(t *rapid.T) Case {
 	if rapid.IntRange(0, 11).Draw(t, "churn") == 5 {
 		c.Churn = rapid.IntRange(260, 420).Draw(t, "churnn")
 	}
-	c.Write = []string{"generic_writer", "buffer_row_group", "deconstruct_rows", "variant_column_writer"}[rapid.IntRange(0, 3).Draw(t, "write")]
+	c.Write = []string{"generic_writer", "buffer_row_group", "deconstruct_rows", "variant_column_writer", "generic_writer(raw struct)", "buffer_row_group(raw struct)"}[rapid.IntRange(0, 5).Draw(t, "write")]
 	c.Read = []string{"convert", "direct", "legacy_reader"}[rapid.IntRange(0, 2).Draw(t, "read")]
 	return c
 }
@@ -495,6 +495,26 @@ func runCase(c Case, o *kit.Obs) *kit.Failure {
 			w := parquet.NewGenericWriter[writeRow](&buf, schema)
 			if _, werr = w.WriteRowGroup(b); werr == nil {
 				werr = w.Close()
+			}
+		}
+	case "generic_writer(raw struct)", "buffer_row_group(raw struct)":
+		// the field is the raw {metadata, value} struct itself, not an interface holding it
+		rawRows := make([]readRow, len(raws))
+		for i := range raws {
+			rawRows[i] = readRow{ID: int32(i), Var: raws[i]}
+		}
+		if c.Write == "generic_writer(raw struct)" {
+			w := parquet.NewGenericWriter[readRow](&buf, schema)
+			if _, werr = w.Write(rawRows); werr == nil {
+				werr = w.Close()
+			}
+		} else {
+			b := parquet.NewGenericBuffer[readRow](schema)
+			if _, werr = b.Write(rawRows); werr == nil {
+				w := parquet.NewGenericWriter[readRow](&buf, schema)
+				if _, werr = w.WriteRowGroup(b); werr == nil {
+					werr = w.Close()
+				}
 			}
 		}
 	case "variant_column_writer":
